@@ -119,7 +119,8 @@ class Exec:
                          "line": self.line(node) if node is not None else 0, "detail": detail,
                          "src": self.text(node) if node is not None else "", "hyps": tuple(st.pc), "goal": goal,
                          "watch": self.watch(st), "trail": " > ".join(st.trail[-6:])})
-        st.pc.append(goal)
+        if not z3.is_false(goal):      # a statically failed check is reported once; assuming it would make the rest vacuous
+            st.pc.append(goal)
 
     def spec(self, st, names=None, old=None, result=None):
         return Spec(st, names=names, old=old, result=result, consts=self.consts)
